@@ -94,3 +94,8 @@ CHECKS["C12"] = {
          "step: nothing outside the roots changed and every engine-issued mutation targets a path inside the root; at quiescence the roots agree and no outside or declined content crossed. "
          "The translate function itself is verified symbolically under C13.",
  "technique": "bounded exhaustive exploration; operations (inside/outside/across the root boundary) and schedules are z3 integer choices enumerated by solver-decided branching over the real engine; per-step outside-snapshot and call-target oracles"}
+CHECKS["C14"] = {
+ "text": "Exhaustive bounded differential exploration (M2): every history/schedule in the family is run with prompt in-order delivery and again with one solver-chosen mangling of one "
+         "side's event stream (14 kinds: duplication, per-event batching, interleaved walks, id-less and vanished-object events, and for id-stable providers reordering, delay, dropped "
+         "paths); final trees, deletes and spurious transfers are compared with the unmangled run.",
+ "technique": "bounded exhaustive differential exploration; operations, schedule, mangling kind and side are z3 integer choices enumerated by solver-decided branching; the real engine is run with and without an event-mangling provider wrapper"}
